@@ -289,8 +289,8 @@ func genUndColor(g *vlib.G) {
 		if s.n == 0 {
 			return
 		}
-		// quick tier: the 6-node graphs whose edge mask is a multiple of 4 (a fixed quarter).
-		if s.n == 6 && !g.Thorough() && s.mask%4 != 0 {
+		// quick tier: the 6-node graphs whose edge mask is a multiple of 8 (a fixed eighth).
+		if s.n == 6 && !g.Thorough() && s.mask%8 != 0 {
 			return
 		}
 		plan := undPlan(g, &s)
@@ -302,7 +302,7 @@ func genUndColor(g *vlib.G) {
 			for ci, cb := range plan {
 				// Partial colourings: all of them on the ascending harness
 				// graph for n <= 5 and (thorough) n = 6; elsewhere a rotating
-				// third (n <= 5 and n = 6 thorough) or twenty-fourth (n = 6
+				// third (n <= 5), sixth (n = 6 thorough) or twenty-fourth (n = 6
 				// quick; ascending graph: twelfth) chosen by combination
 				// and edge mask. nil, empty and absent-node always.
 				stride := 1
@@ -314,7 +314,7 @@ func genUndColor(g *vlib.G) {
 				case cb.v == vOrdAsc:
 					stride = 1
 				case s.n >= 6:
-					stride = 3
+					stride = 6
 				case s.n == 5:
 					stride = 3
 				}
@@ -454,12 +454,12 @@ func hardCase(g *vlib.G, group string, n int, mask uint32, all bool) {
 // genUndColorSweep7 runs the exact-colouring check over the 7-node graphs in
 // scrambled order: a fixed 1/32 in the quick tier (ident/asc, plus sparse/desc
 // and rev/simple when the exact search is entered; without the nil-terminator
-// call), all 2^21 in the thorough tier. Default configuration only.
+// call), the first 2^20 (half of them) in the thorough tier. Default configuration only.
 func genUndColorSweep7(g *vlib.G) {
 	if vlib.Env("VERIF_CONFIG", "default") != "default" {
 		return
 	}
-	n := vlib.Pick(g, uint32(1)<<16, uint32(1)<<21)
+	n := vlib.Pick(g, uint32(1)<<16, uint32(1)<<20)
 	for k := uint32(0); k < n; k++ {
 		if g.Stopped() {
 			return
